@@ -266,6 +266,10 @@ type c44case struct {
 	Unit   string   `json:"unit"`   // "cachedb"
 	Layout []string `json:"layout"` // placement per key
 	Action string   `json:"action"` // migrate-low, migrate-high, destroy
+	// height-/network-gated part (zero values: the ordinary part, solo network, height c44height)
+	Gate   bool   `json:"gate,omitempty"`
+	Net    uint32 `json:"net,omitempty"`    // config.DefConfig.P2PNode.NetworkId
+	Height uint32 `json:"height,omitempty"` // block height passed to the action
 }
 
 const c44height = 7
@@ -273,7 +277,14 @@ const c44height = 7
 // c44run builds the layout, performs the action and checks every level.  It
 // returns violations as (key, detail) pairs and the number of real operations.
 func c44run(places []c44place, action string) (viol [][2]string, ops int64) {
-	bad := func(k, d string) { viol = append(viol, [2]string{k, d}) }
+	return c44runAt(places, action, c44height, true, "")
+}
+
+// c44runAt: the action happens in a block of the given height; tracked tells
+// whether destroyed-contract tracking is active at that height (only then does
+// the statement demand the destroyed marker); kp prefixes the violation keys.
+func c44runAt(places []c44place, action string, height uint32, tracked bool, kp string) (viol [][2]string, ops int64) {
+	bad := func(k, d string) { viol = append(viol, [2]string{kp + k, d}) }
 	store := c44freshStore()
 	w := &c44world{store: store}
 	// persistent layer: the old contract, its stored entries, neighbours
@@ -337,9 +348,9 @@ func c44run(places []c44place, action string) (viol [][2]string, ops int64) {
 		}
 		// what ContractMigrate does: PutContract(new) then MigrateContractStorage
 		w.cache.put(common.ST_CONTRACT, nw[:], c44deploy)
-		err = w.cache.MigrateContractStorage(c44old, nw, c44height)
+		err = w.cache.MigrateContractStorage(c44old, nw, height)
 	case "destroy":
-		err = w.cache.CleanContractStorage(c44old, c44height)
+		err = w.cache.CleanContractStorage(c44old, height)
 	}
 	ops++
 	if err != nil {
@@ -390,14 +401,14 @@ func c44run(places []c44place, action string) (viol [][2]string, ops int64) {
 		if v := w.raw(level, append([]byte{byte(common.ST_CONTRACT)}, c44old[:]...)); v != "" {
 			bad(fmt.Sprintf("%s:%s:old-contract-entry-left", act, level), "contract entry of the old address still present")
 		}
-		if v := w.raw(level, append([]byte{byte(common.ST_DESTROYED)}, c44old[:]...)); v == "" {
+		if v := w.raw(level, append([]byte{byte(common.ST_DESTROYED)}, c44old[:]...)); v == "" && tracked {
 			bad(fmt.Sprintf("%s:%s:old-not-marked-destroyed", act, level), "no destroyed marker for the old address")
 		}
 	}
 	// a fresh transaction cache over the committed store sees the address as destroyed
 	c2 := NewCacheDB(overlaydb.NewOverlayDB(store))
 	dep, destroyed, err := c2.GetContract(c44old)
-	if err != nil || dep != nil || !destroyed {
+	if err != nil || dep != nil || (!destroyed && tracked) {
 		bad(act+":GetContract-old-not-destroyed", fmt.Sprintf("GetContract(old) = (%v, destroyed=%v, %v)", dep != nil, destroyed, err))
 	}
 	return
@@ -463,9 +474,101 @@ func c44marker(r *vh.Run) {
 	}
 }
 
+// ---------------------------------------------------------------- height-/network-gated part
+//
+// Destroyed-contract tracking is introduced by a hard fork: it is active from
+// the block height config.GetTrackDestroyedContractHeight() on, which depends
+// on the configured network id.  For every network id the configuration
+// distinguishes and every height around that network's activation height the
+// same migrate / destroy runs are repeated with that block height.
+
+type c44net struct {
+	name string
+	id   uint32
+}
+
+// main net, polaris, solo and an id the configuration does not know (default branch)
+var c44nets = []c44net{{"mainnet", config.NETWORK_ID_MAIN_NET}, {"polaris", config.NETWORK_ID_POLARIS_NET}, {"solo", config.NETWORK_ID_SOLO_NET}, {"other", 0}}
+
+type c44gh struct {
+	class  string
+	height uint32
+}
+
+// heights around the activation height act, a far later one and the largest
+func c44gateHeights(act uint32) []c44gh {
+	var out []c44gh
+	if act > 0 {
+		out = append(out, c44gh{"below-activation", act - 1})
+	}
+	return append(out, c44gh{"at-activation", act}, c44gh{"activation+1", act + 1}, c44gh{"far-above", act + 54321}, c44gh{"max-height", ^uint32(0)})
+}
+
+// with the network id set for the duration of f only
+func c44withNet(id uint32, f func()) {
+	saved := config.DefConfig.P2PNode.NetworkId
+	defer func() { config.DefConfig.P2PNode.NetworkId = saved }()
+	config.DefConfig.P2PNode.NetworkId = id
+	f()
+}
+
+func c44gateLayouts() [][]c44place {
+	var out [][]c44place
+	for _, p := range c44sharpPlaces() { // all four keys at the same placement
+		out = append(out, []c44place{p, p, p, p})
+	}
+	sp := c44sharpPlaces()
+	return append(out, []c44place{sp[4], sp[2], sp[7], sp[0]}, []c44place{sp[1], sp[3], sp[8], sp[6]})
+}
+
+func c44names(ps []c44place) []string {
+	var n []string
+	for _, p := range ps {
+		n = append(n, p.String())
+	}
+	return n
+}
+
+func c44gate(r *vh.Run, base int) {
+	idx := base
+	for _, net := range c44nets {
+		var act uint32
+		c44withNet(net.id, func() { act = config.GetTrackDestroyedContractHeight() })
+		if net.name == "mainnet" {
+			r.Need(act > 0, "main net activation height is 0: no height below the gate")
+		}
+		for _, gh := range c44gateHeights(act) {
+			tracked := gh.height >= act // active FROM the activation height on
+			for _, ps := range c44gateLayouts() {
+				for _, a := range []string{"migrate-low", "migrate-high", "destroy"} {
+					idx++
+					if !r.Mine(idx) {
+						continue
+					}
+					var viol [][2]string
+					var ops int64
+					c44withNet(net.id, func() {
+						viol, ops = c44runAt(ps, a, gh.height, tracked, "gate:"+gh.class+":")
+					})
+					r.StateKey(fmt.Sprintf("gate:%s:%d:%s:%s", net.name, gh.height, strings.Join(c44names(ps), ","), a))
+					r.Trace(1)
+					r.Trans(ops)
+					for _, v := range viol {
+						r.Violation(v[0], fmt.Sprintf("network %s (id %d, tracking active from height %d), action in the block of height %d, layout %v, %s: %s", net.name, net.id, act, gh.height, c44names(ps), a, v[1]),
+							c44case{Unit: "cachedb", Layout: c44names(ps), Action: a, Gate: true, Net: net.id, Height: gh.height})
+					}
+					r.Class(fmt.Sprintf("gate:%s:%s:%s:tracked=%v", net.name, gh.class, strings.SplitN(a, "-", 2)[0], tracked))
+				}
+			}
+		}
+	}
+}
+
 func TestVerif_C44_cachedb(t *testing.T) {
 	r := vh.Start(t, "C44", "cachedb")
 	defer r.Finish()
+	savedNet := config.DefConfig.P2PNode.NetworkId
+	defer func() { config.DefConfig.P2PNode.NetworkId = savedNet }()
 	config.DefConfig.P2PNode.NetworkId = config.NETWORK_ID_SOLO_NET // destroyed-contract tracking from height 0
 	r.Need(config.GetTrackDestroyedContractHeight() == 0, "tracking height")
 	places := c44sharpPlaces()
@@ -473,8 +576,8 @@ func TestVerif_C44_cachedb(t *testing.T) {
 		places = c44allPlaces()
 	}
 	actions := []string{"migrate-low", "migrate-high", "destroy"}
-	r.Rule("states = storage layouts: every assignment of a placement (persistent store present/absent x block overlay none/put/deleted x tx cache none/put/deleted) to each of the 4 prefix-sharing keys \"\",k,kk,l of the old contract, with neighbouring addresses populated; per layout the real CacheDB.MigrateContractStorage (new address sorting directly below / above the old one) and CleanContractStorage are run and observed through Get/NewIterator/GetContract at cache level, after Commit at overlay level and after CommitTo+BatchCommit at store level; plus the contract-entry x destroyed-marker layer product for GetContract/IsContractDestroyed; transitions = layer operations and actions applied to the real objects; classes = action x number of visible entries x tombstones present")
-	r.Bound(fmt.Sprintf("%d placements per key (%s), 4 keys => %d layouts x 3 actions; marker product 4x4", len(places), map[bool]string{false: "sharp subset: absent, each single layer, stacked puts, tombstones over lower values", true: "all 18"}[r.Thorough()], len(places)*len(places)*len(places)*len(places)))
+	r.Rule("states = storage layouts: every assignment of a placement (persistent store present/absent x block overlay none/put/deleted x tx cache none/put/deleted) to each of the 4 prefix-sharing keys \"\",k,kk,l of the old contract, with neighbouring addresses populated; per layout the real CacheDB.MigrateContractStorage (new address sorting directly below / above the old one) and CleanContractStorage are run and observed through Get/NewIterator/GetContract at cache level, after Commit at overlay level and after CommitTo+BatchCommit at store level; plus the contract-entry x destroyed-marker layer product for GetContract/IsContractDestroyed; plus the height-/network-gated part: for every network id the configuration distinguishes (main net, polaris, solo, unknown id) x block height of the action in {activation-1 (if any), activation, activation+1, activation+54321, 2^32-1} of that network's config.GetTrackDestroyedContractHeight() x 11 layouts (all keys at one sharp placement, two mixed) x 3 actions the same runs, where the destroyed marker is demanded iff height >= activation height (storage move/removal and removal of the contract entry are demanded at every height); transitions = layer operations and actions applied to the real objects; classes = action x number of visible entries x tombstones present")
+	r.Bound(fmt.Sprintf("%d placements per key (%s), 4 keys => %d layouts x 3 actions; marker product 4x4; gate part: 4 network ids x 4-5 heights x 11 layouts x 3 actions = 561 runs", len(places), map[bool]string{false: "sharp subset: absent, each single layer, stacked puts, tombstones over lower values", true: "all 18"}[r.Thorough()], len(places)*len(places)*len(places)*len(places)))
 
 	var rc c44case
 	if r.ReplayCase(&rc) && rc.Unit != "" && rc.Unit != "cachedb" {
@@ -489,7 +592,21 @@ func TestVerif_C44_cachedb(t *testing.T) {
 				}
 			}
 		}
-		viol, _ := c44run(ps, rc.Action)
+		var viol [][2]string
+		if rc.Gate {
+			c44withNet(rc.Net, func() {
+				act := config.GetTrackDestroyedContractHeight()
+				class := "?"
+				for _, gh := range c44gateHeights(act) {
+					if gh.height == rc.Height {
+						class = gh.class
+					}
+				}
+				viol, _ = c44runAt(ps, rc.Action, rc.Height, rc.Height >= act, "gate:"+class+":")
+			})
+		} else {
+			viol, _ = c44run(ps, rc.Action)
+		}
 		for _, v := range viol {
 			r.Violation(v[0], v[1], rc)
 		}
@@ -498,6 +615,7 @@ func TestVerif_C44_cachedb(t *testing.T) {
 	if r.Mine(0) {
 		c44marker(r)
 	}
+	c44gate(r, 0)
 	n := len(places)
 	idx := 0
 	vh.Odometer([]int{n, n, n, n}, func(d []int) bool {
@@ -525,7 +643,7 @@ func TestVerif_C44_cachedb(t *testing.T) {
 			r.Trace(1)
 			r.Trans(ops)
 			for _, v := range viol {
-				r.Violation(v[0], fmt.Sprintf("layout %v, %s: %s", names, a, v[1]), c44case{"cachedb", names, a})
+				r.Violation(v[0], fmt.Sprintf("layout %v, %s: %s", names, a, v[1]), c44case{Unit: "cachedb", Layout: names, Action: a})
 			}
 			r.Class(fmt.Sprintf("%s:visible=%d:tombstones=%v", strings.SplitN(a, "-", 2)[0], vis, tomb))
 		}
@@ -533,6 +651,7 @@ func TestVerif_C44_cachedb(t *testing.T) {
 	})
 	r.Eval(r.R.Traces)
 	r.Sample(map[string]interface{}{"layout": map[string]string{"": "S-D (stored, deleted in tx cache)", "k": "-P- (block overlay)", "kk": "SPP (stored, overwritten in overlay and in tx cache)", "l": "--- (absent)"}, "action": "migrate-high", "expect": "new contract has k=O:k, kk=C:kk; nothing under the old address at cache, overlay and store level"})
+	r.Assume("destroyed-contract tracking is active at block height h iff h >= config.GetTrackDestroyedContractHeight() for the configured network id (the statement's 'once tracking is active'; the same comparison registers the governance methods in global_params)")
 	r.Need(r.R.States >= 10, "only %d layouts", r.R.States)
 }
 
